@@ -11,19 +11,6 @@ import Qryn.LogQL.AstMetric
     planner_main_order_by.go, planner_main_finalizer.go (`processMatrix`), sql_misc.go
     (`labelsFromScratch`, `patchCol`, `hasColumn`, `getCol`). The tree mirrored is the fixed one
     (see notes/C08.md). -/
-namespace Qryn.Sql
-/-! ### helpers on selects (`sql_select.Select` methods not in `Sql.Build`) -/
-def Sel.cols : Sel → List Expr
-  | .mk _ _ c _ _ _ _ _ _ _ _ => c
-def Sel.setCols : Sel → List Expr → Sel
-  | .mk ws d _ f j p w g h o l, c => .mk ws d c f j p w g h o l
-def Sel.having : Sel → Option Expr
-  | .mk _ _ _ _ _ _ _ _ h _ _ => h
-/-- `Select.AndHaving` (same shape as `AndWhere`) -/
-def Sel.andHaving : Sel → List Expr → Sel
-  | .mk ws d c f j p w g h o l, cl => .mk ws d c f j p w g (some (andCond h cl)) o l
-
-end Qryn.Sql
 
 namespace Qryn.LogQL
 open Qryn Qryn.Sql
